@@ -197,6 +197,9 @@ class Peer:
             if self.mode == 'real':
                 self._stdout_was_swapped = True
                 sys.stdout = io.StringIO()
+                if f.get('how') == 'closed':
+                    # ... and the code under test closes its own stream when done
+                    sys.stdout.close()
             return None
         if kind == 'warn_filters':
             how = f.get('how', 'simplefilter')
@@ -390,6 +393,10 @@ class Peer:
             raise exc
         if kind == 'print':
             sys.stdout.write('importing ' + modname + '\n')
+        if kind == 'warn':
+            if self.mode == 'real':
+                self.fired.append(('import_warn', None, None, modname))
+            warnings.warn('sim: warning while importing ' + modname, UserWarning)
 
 
 def _raise_via(exc, depth):
